@@ -244,6 +244,8 @@ def run(ctx):
                     ch = ch + sel[: K2 - len(ch)]
                 groups = [A.cgroup(ch[0][k]["lo"], ch[0][k]["hi"], "tanh", "exact", False, [c[k]["rows"][0] for c in ch]) for k in (0, 1)]
                 add(A.run_ma_cont(zoo, alg, groups, training=training, variant="grid-ma"))
+                if not training or not quick:                  # heads whose output activation is Softsign (range (-1, 1) like Tanh)
+                    add(A.run_ma_cont(zoo, alg, groups, training=training, variant="grid-ma+softsign", act="Softsign"))
             for c in sub(sel, 25):
                 groups = [A.cgroup(c[k]["lo"], c[k]["hi"], "tanh", "exact", True, [c[k]["rows"][0]]) for k in (0, 1)]
                 add(A.run_ma_cont(zoo, alg, groups, training=training, single=True, variant="grid-ma"))
@@ -264,6 +266,20 @@ def run(ctx):
                 if i % 4 == 0:
                     add(A.run_ippo(zoo, groups, training=training, mask_form=form, variant=f"mask-{form}+infos-reversed"))
 
+    # IPPO over Box action spaces: a homogeneous pair with bounds A and a third agent with bounds B (another dimension); in
+    # evaluation mode every agent's action lies inside ITS OWN bounds
+    for training in (True, False):
+        req = "free" if training else "inb"
+        rowsA = G.cont.get((tuple(A.LO_A), tuple(A.HI_A), "none", req, False), [])
+        rowsB = [A.crow(x["x"], [0]) for x in G.cont.get((tuple(A.LO_B), tuple(A.HI_B), "none", "exact", False), [])]
+        if rowsA and rowsB:
+            for i, ch in enumerate(list(A.chunks(rowsA, 8))[:(3 if quick else None)]):
+                if len(ch) < 8:
+                    ch = ch + rowsA[: 8 - len(ch)]
+                ch2 = [rowsA[(len(rowsA) - 1 - i * 8 - j * 3) % len(rowsA)] for j in range(8)]
+                chB = [rowsB[(i * 8 + j) % len(rowsB)] for j in range(8)]
+                add(A.run_ippo_cont(zoo, [A.cgroup(A.LO_A, A.HI_A, "none", req, False, ch), A.cgroup(A.LO_A, A.HI_A, "none", req, False, ch2),
+                                          A.cgroup([-4], [12], "none", req, False, chB)], training=training))      # IPPO wants a positive upper bound
     ctx.extra["calls_recorded"] = len(traces)
     ctx.extra["share_encoders_used"] = dict(zoo.shared)
     ctx.extra["calls_by_algorithm"] = {}
